@@ -52,6 +52,13 @@ def writer_wiring(ctx):
 def run(ctx):
     ctx.pyvc([write_continue, write_lines], MONITORS)
     writer_wiring(ctx)
+    import json as _json
+    rc = ctx.monitor("m_corpus_rel", "psearch", 400, ctx.seed, 16, _json.dumps({"rel": ["linelen"]}))
+    ctx.bounded.append({"monitor": "m_corpus_rel", "inputs_tried": rc["tried"], "violation": rc["violation"],
+                        "kind": "every upstream regression input with F_line_length/C_line_length 60/60 and 100/50: same files, same text "
+                                "once whitespace and Fortran continuation markers are removed"})
+    if rc["violation"]:
+        ctx.violation("bounded/m_corpus_rel", {"inputs": rc["inputs"], "observed": rc["violation"]}, True)
     r0 = ctx.monitor("m_linelen_e2e", "search", 6, ctx.seed)
     ctx.bounded.append({"monitor": "m_linelen_e2e", "inputs_tried": r0["tried"], "violation": r0["violation"],
                         "kind": "bounded: the driver with F_line_length != C_line_length: every argument-list line of the Fortran files "
